@@ -34,7 +34,7 @@ RULE = ("one run = one seeded history on a real Headers object over a real heade
         "beyond the tip; re-sent stored headers; checkpoint chunks served honest/altered/truncated/extended "
         "through ensure_chunk_at/get_raw_header; close + fault (cut at a byte offset incl. a family enumerating "
         "every offset of the last three headers, whole-header overwrite of tip/non-tip headers with zero/random "
-        "bytes, bit flips in non-tip headers, torn final write) + reopen. Non-trivial = at least one invalid "
+        "bytes, bit flips in non-tip headers) + reopen. Non-trivial = at least one invalid "
         "batch was offered or one fault fired or one fork connected; distinct = distinct event-trace digest.")
 COMPONENTS = {
     'real': ['lbry.wallet.header.Headers (connect, validate_chunk, validate_header, get_next_block_target, '
@@ -58,7 +58,7 @@ ASSUMPTIONS = [
     'validity is asserted up to the end of the most recently connected batch; stale headers of a longer old '
     'branch beyond a shorter fork are treated like damaged headers for the restart clauses',
     'damage model: tip = whole-header overwrite only; all damaged positions strictly above the first header '
-    'repair looks at (max(checkpoints)+1000, 999 without checkpoints); no damage inside check-pointed chunks',
+    'repair looks at (max(checkpoints)+1000, 999 without checkpoints); no damage inside check-pointed chunks and no fork below a checkpoint',
 ]
 EXPECTED_PROBES = [
     'connect_call', 'valid_ext_stored', 'fork_stored', 'fork_shorter_stale_tail', 'invalid_offered',
@@ -128,8 +128,8 @@ def _batch(r, big, fork=None, bad=None, nmax=None):
 
 
 def _fault(r, cp):
-    kind = r.choices(['cut_back', 'cut_frac', 'overwrite_tip', 'overwrite_mid', 'bitflip', 'torn_close', 'multi'],
-                     [22, 8, 22, 20, 20, 4, 4])[0]
+    kind = r.choices(['cut_back', 'cut_frac', 'overwrite_tip', 'overwrite_mid', 'bitflip', 'multi'],
+                     [22, 8, 24, 20, 20, 6])[0]
 
     def pos(allow_tip):
         how = r.choice(['back', 'back', 'low', 'frac'])
@@ -148,8 +148,6 @@ def _fault(r, cp):
         return [{'kind': 'overwrite', 'pos': pos(False), 'fill': r.choice(['zero', 'random']), 'seed': r.getrandbits(32)}]
     if kind == 'bitflip':
         return [{'kind': 'bitflip', 'pos': pos(False), 'bit': r.randrange(HS * 8)}]
-    if kind == 'torn_close':
-        return [{'kind': 'torn_close', 'back': r.randrange(1, 600)}]
     out = []
     for _ in range(r.randrange(2, 4)):
         k = r.choice(['overwrite', 'bitflip'])
@@ -189,6 +187,10 @@ def gen(run_seed, tier):
         if r.random() < 0.22:
             sc['init'] = 'none'
             sc['base_len'] = 0
+            if r.random() < 0.5:     # a wrong genesis / early header offered to the empty chain first
+                f = r.choice(list(FIELDS))
+                ops.append({'op': 'feed', 'n': r.choice([1, 1, 2, 5]), 'split': [],
+                            'alter': {'idx': r.choice([0, 0, 0, 1, 2]), 'field': f, 'bit': r.randrange(FIELDS[f][1])}})
             feed_ops(r.choice([1, 2, 3, 40, 300, 1100, 1100]))
         else:
             sc['base_len'] = r.choice([1100] * 6 + [1, 2, 3, 5, 37, 500, 999, 1000, 1001, 1036, 1099])
@@ -759,8 +761,18 @@ class _Exec:
             self.run.probes['op_skipped'] += 1
             return
         n = max(1, min(int(op.get('n', 1)), lc.BASE_LEN - lg))
+        batch, label = self.base[lg * HS:(lg + n) * HS], 'feed'
+        alter = op.get('alter')
+        if alter:
+            i = alter.get('idx', 0) % n
+            off, width = FIELDS.get(alter.get('field'), FIELDS['nonce'])
+            bit = alter.get('bit', 0) % width
+            b = bytearray(batch)
+            b[i * HS + off + bit // 8] ^= 1 << (bit % 8)
+            batch, label = bytes(b), 'feed_field:' + str(alter.get('field'))
+            self.run.faults['bad_field'] += 1
         self.run.probes['feed_through_connect'] += 1
-        await self.do_connect(lg, self.base[lg * HS:(lg + n) * HS], 'feed')
+        await self.do_connect(lg, batch, label)
 
     async def op_stale_attach(self, op):
         plen = len(self.h)
@@ -827,6 +839,7 @@ class _Exec:
         Fp = bytearray(F)
         D = []
         kinds = []
+        flips = []
         cut_at = None
 
         def resolve(pos, allow_tip):
@@ -860,6 +873,7 @@ class _Exec:
                     continue
                 bit = int(ft.get('bit', 0)) % (HS * 8)
                 Fp[p * HS + bit // 8] ^= 1 << (bit % 8)
+                flips.append((p, p * HS + bit // 8, 1 << (bit % 8)))
                 D.append(p)
                 run.faults['bitflip'] += 1
                 kinds.append('bitflip_prev' if 32 <= bit < 288 else 'bitflip')
@@ -873,18 +887,16 @@ class _Exec:
                     cut_at = c if cut_at is None else min(cut_at, c)
                 else:
                     run.probes['fault_skipped'] += 1
-            elif kind == 'torn_close':
-                c = len(R) - int(ft.get('back', 1))
-                if c // HS > rs and 0 < c < len(R) and len(op.get('faults')) == 1:
-                    Fp = bytearray(R[:c] + prev_file[c:])
-                    d = next((i for i in range(c, min(len(Fp), len(R))) if Fp[i] != R[i]), None)
-                    if d is not None:
-                        D.append(d // HS)
-                    run.faults['torn_close'] += 1
-                    kinds.append('torn_close')
-                else:
-                    run.probes['fault_skipped'] += 1
         if cut_at is not None:
+            new_tip = cut_at // HS - 1
+            for p, byte, mask in flips:
+                if p >= new_tip:
+                    # the cut would make a partially changed header the tip (outside the damage model:
+                    # no link check can see it) or removes it anyway: undo this flip
+                    Fp[byte] ^= mask
+                    if p in D:
+                        D.remove(p)
+                    run.probes['fault_skipped'] += 1
             del Fp[cut_at:]
             run.faults['cut'] += 1
             kinds.append('cut')
@@ -941,8 +953,12 @@ class _Exec:
                              f'headers were in the file, first damaged/stale height {first_bad}: at least {need} '
                              f'must survive', fault=fault)
         fi_L = min(fi_R, L2)
-        if fi_L < L2 and not (aligned and fi_R <= self.rs):
-            rule = self.chain.first_invalid(R, fi_L, fi_L + 1)[1]
+        rule = self.chain.first_invalid(R, fi_L, fi_L + 1)[1] if fi_L < L2 else None
+        if fi_L < L2 and fi_L == Wc - 1 and rule in ('bits', 'pow') and fi_L not in D:
+            # left-over of an earlier damaged (not overwritten) header that a later cut turned into the
+            # tip: its parent-hash field is intact, so it is outside "tip = whole-header overwrite"
+            run.probes['residual_partial_tip'] += 1
+        elif fi_L < L2 and not (aligned and fi_R <= self.rs):
             return self.viol('C07.reopen_invalid', f'after {fault} the loaded chain has {L2} headers but the one at '
                              f'height {fi_L} breaks rule {rule} (damaged {sorted(D)}, file had {Wc} whole headers)',
                              fault=fault)
